@@ -225,6 +225,14 @@ func Sidx(off, i Term) Term {
 	return app(SInt, "sidx", off, i)
 }
 
+// SidxOff is the offset of the sub-slice s[lo:] of a slice at offset off.
+func SidxOff(off, lo Term) Term {
+	if lo.S == "0" {
+		return off
+	}
+	return Sidx(off, lo)
+}
+
 func Lt(a, b Term) Term { return app(SBool, "<", a, b) }
 func Le(a, b Term) Term { return app(SBool, "<=", a, b) }
 func Gt(a, b Term) Term { return app(SBool, ">", a, b) }
@@ -288,6 +296,7 @@ const basePrelude = `
 (assert (= (str_len 0) 0))
 (declare-fun sidx (Int Int) Int)
 (assert (forall ((o Int) (i Int)) (! (= (sidx o i) (+ o i)) :pattern ((sidx o i)))))
+(assert (forall ((o Int) (a Int) (b Int)) (! (= (sidx (sidx o a) b) (sidx o (+ a b))) :pattern ((sidx (sidx o a) b)))))
 (define-fun imin ((a Int) (b Int)) Int (ite (<= a b) a b))
 (define-fun imax ((a Int) (b Int)) Int (ite (>= a b) a b))
 `
